@@ -323,3 +323,44 @@ Proof.
   - simpl. destruct (negb (memN target' (c_conns s))); simpl; [intro H; contradiction H; reflexivity|].
     destruct (csend_ok s target'); simpl; [reflexivity | intro H; contradiction H; reflexivity].
 Qed.
+
+(** ** two hops as one statement: requester [src] asks through transit [a],
+    which forwards to transit [b] (the frame [a] emits is the very request
+    event [b] handles), which forwards on.  Whatever else both transits do in
+    between (other requests with any ids, own requests, answers under other
+    ids, cancellations, sleep, connects, disconnects, failing sends), the
+    answer that comes back to [b] under [b]'s id is sent to [a] under [a]'s
+    id and to nobody else, and that frame, handled by [a], is sent to [src]
+    under [src]'s own id and to nobody else; neither transit hands it to a
+    local caller.  Longer chains follow by the same step. *)
+Theorem two_hop_roundtrip :
+  forall evsA0 a evsB0 b src oid target pathA tag fa restA h fb restB evsA evsB from rtag,
+  let sA0 := crun_state (cinit a) evsA0 in
+  let sB0 := crun_state (cinit b) evsB0 in
+  out_of (cstep sA0 (CReq src oid target pathA tag)) = [(b, MReq fa target restA tag)] ->
+  out_of (cstep sB0 (CReq a fa target restA tag)) = [(h, MReq fb target restB tag)] ->
+  (forall f t, ~ In (CResp f fa t) evsA) ->
+  (forall f t, ~ In (CResp f fb t) evsB) ->
+  let sA2 := crun_state (st_of (cstep sA0 (CReq src oid target pathA tag))) evsA in
+  let sB2 := crun_state (st_of (cstep sB0 (CReq a fa target restA tag))) evsB in
+  let rB := cstep sB2 (CResp from fb rtag) in
+  let rA := cstep sA2 (CResp b fa rtag) in
+  (out_of rB = cemit (st_of rB) a (MResp fa true rtag) /\ deliv_of rB = []) /\
+  (out_of rA = cemit (st_of rA) src (MResp oid true rtag) /\ deliv_of rA = []).
+Proof.
+  intros evsA0 a evsB0 b src oid target pathA tag fa restA h fb restB evsA evsB from rtag
+         sA0 sB0 HA HB HnA HnB sA2 sB2 rB rA.
+  split.
+  - exact (request_response_roundtrip evsB0 b a fa target restA tag h fb restB evsB from rtag HB HnB).
+  - exact (request_response_roundtrip evsA0 a src oid target pathA tag b fa restA evsA b rtag HA HnA).
+Qed.
+
+(** non-vacuity of the two-hop statement: 1 asks 4 through transits 9 and 8 *)
+Example two_hop_example :
+  let sA0 := crun_state (cinit 9) [CConnect 1; CConnect 8; COriginate 8 5] in
+  let sB0 := crun_state (cinit 8) [CConnect 9; CConnect 4] in
+  out_of (cstep sA0 (CReq 1 7 4 [8; 4] 11)) = [(8, MReq 2 4 [4] 11)] /\
+  out_of (cstep sB0 (CReq 9 2 4 [4] 11)) = [(4, MReq 1 4 [] 11)] /\
+  out_of (cstep (st_of (cstep sB0 (CReq 9 2 4 [4] 11))) (CResp 4 1 99)) = [(9, MResp 2 true 99)] /\
+  out_of (cstep (st_of (cstep sA0 (CReq 1 7 4 [8; 4] 11))) (CResp 8 2 99)) = [(1, MResp 7 true 99)].
+Proof. vm_compute. repeat split; reflexivity. Qed.
